@@ -231,7 +231,23 @@ func govcReference(script []govcInPacket) (delivered []string, wire []byte) {
 	}
 }
 
-func govcRunScript(script []govcInPacket, chunk int) (bad string) {
+// govcFlaky fails the n-th Save once (a Persistence that recovers), everything else passes through.
+type govcFlaky struct {
+	Persistence
+	failAt, saves int
+}
+
+var govcInjected = errors.New("injected Save failure")
+
+func (f *govcFlaky) Save(key uint, value net.Buffers) error {
+	f.saves++
+	if f.saves == f.failAt {
+		return govcInjected
+	}
+	return f.Persistence.Save(key, value)
+}
+
+func govcRunScript(script []govcInPacket, chunk, failSave int) (bad string) {
 	defer func() {
 		if r := recover(); r != nil {
 			bad = fmt.Sprint("panic: ", r)
@@ -260,9 +276,15 @@ func govcRunScript(script []govcInPacket, chunk int) (bad string) {
 	c.writeSem <- conn
 	c.readConn = conn
 	c.bufr = bufio.NewReaderSize(conn, readBufSize)
+	if failSave > 0 {
+		c.persistence = &govcFlaky{Persistence: c.persistence, failAt: failSave}
+	}
 	var delivered []string
-	for calls := 0; calls < len(script)+2; calls++ {
+	for calls := 0; calls < len(script)+4; calls++ {
 		m, _, err := c.ReadSlices()
+		if errors.Is(err, govcInjected) {
+			continue // the application tries again; nothing may be lost, repeated or skipped because of it
+		}
 		if err != nil {
 			break
 		}
@@ -274,13 +296,14 @@ func govcRunScript(script []govcInPacket, chunk int) (bad string) {
 		names = append(names, p.kind)
 	}
 	if fmt.Sprint(delivered) != fmt.Sprint(wantD) || !bytes.Equal(conn.wire, wantW) {
-		return fmt.Sprintf("script %v in chunks of %d: delivered %q and sent %x; the reference receiver delivers %q and sends %x", names, chunk, delivered, conn.wire, wantD, wantW)
+		return fmt.Sprintf("script %v in chunks of %d, Save no. %d failing once (0: none): delivered %q and sent %x; the reference receiver delivers %q and sends %x", names, chunk, failSave, delivered, conn.wire, wantD, wantW)
 	}
 	return ""
 }
 
 // Bounded search on the real read routine: scripts of up to 4 packets over 7 packet shapes, whole and
-// byte-by-byte fragmentation (C04, C06, C07, C13 at the level of what is delivered and what is answered).
+// byte-by-byte fragmentation, without and with one transient Save failure of the Persistence (the first or the
+// second Save) (C04, C06, C07, C13 at the level of what is delivered and what is answered).
 func TestGovcReplay(t *testing.T) {
 	govcLoad(t)
 	alpha := []govcInPacket{
@@ -292,10 +315,12 @@ func TestGovcReplay(t *testing.T) {
 	rec = func(cur []govcInPacket) bool {
 		if len(cur) > 0 {
 			for _, chunk := range []int{1 << 20, 1} {
-				tried++
-				if bad := govcRunScript(cur, chunk); bad != "" {
-					t.Logf("REPLAY: reproduced: %s", bad)
-					return true
+				for failSave := 0; failSave <= 2; failSave++ {
+					tried++
+					if bad := govcRunScript(cur, chunk, failSave); bad != "" {
+						t.Logf("REPLAY: reproduced: %s", bad)
+						return true
+					}
 				}
 			}
 		}
